@@ -241,6 +241,7 @@ func m1Limiter(idx int64, r *rand.Rand) {
 		return
 	}
 	rt.Count("m1_histories_linearizable", 1)
+	rt.DistinctIn("m1_histories_observed(real-time order of calls and returns)", fmt.Sprint(describe(ops)))
 	if ov > 0 {
 		rt.Distinct(fmt.Sprintf("m1|%v|%d|%d|%d", cfg, len(ops), ov, sets))
 	}
